@@ -59,12 +59,6 @@ pub fn gnu_sound<const T: usize, const S: usize, const R: usize, const Q: usize>
     }
 }
 
-#[kani::proof]
-#[kani::unwind(6)]
-pub fn sound_elf32_le_small() {
-    // header 16 + bloom 4 + 1 bucket + up to 2 chains = 32 bytes; 3 symbols of 16 bytes; strtab 5; name <= 2
-    gnu_sound::<32, 48, 5, 2>(Class::ELF32, true);
-}
 
 /// Completeness on builder-produced tables.
 /// Concrete per harness: class, nbucket NB, nbloom NL, number of hashed symbols NS, symoffset SO.
@@ -288,4 +282,40 @@ pub fn absent_lean_two_byte_names() {
     let r = t.find(&q, &symtab, &strtab);
     assert!(matches!(r, Ok(None)));
     kani::cover!(ref_gnu_hash(&q) == h0, "absent name whose djb2 hash collides with a present one");
+}
+
+/// Lean soundness harness for the quick tier: fixed-size arbitrary table (32 bytes: every header word arbitrary), three arbitrary
+/// ELF32 symbols, arbitrary 4-byte string table + NUL, query of 1..2 bytes: a returned symbol is the entry at the returned index
+/// and its name equals the query.
+#[kani::proof]
+#[kani::unwind(7)]
+pub fn sound_lean_elf32() {
+    let tb: [u8; 32] = kani::any();
+    let sb: [u8; 48] = kani::any();
+    let rb: [u8; 5] = [kani::any(), kani::any(), kani::any(), kani::any(), 0];
+    let q: [u8; 2] = kani::any();
+    let ql: usize = kani::any();
+    kani::assume(ql >= 1 && ql <= 2);
+    let e = AnyEndian::Little;
+    let symtab: SymbolTable<'_, AnyEndian> = ParsingTable::new(e, Class::ELF32, &sb);
+    let strtab = StringTable::new(&rb);
+    let name = &q[..ql];
+    if let Ok(t) = GnuHashTable::new(e, Class::ELF32, &tb) {
+        if let Ok(Some((i, s))) = t.find(name, &symtab, &strtab) {
+            assert!(symtab.get(i).ok() == Some(s.clone()));
+            match strtab.get_raw(s.st_name as usize) {
+                Ok(n) => {
+                    assert!(n.len() == ql);
+                    assert!(n[0] == q[0]);
+                    if ql == 2 {
+                        assert!(n[1] == q[1]);
+                    }
+                }
+                Err(_) => {
+                    assert!(false);
+                }
+            }
+            kani::cover!(i == 2, "symbol 2 returned");
+        }
+    }
 }
